@@ -32,6 +32,49 @@ package text
 //@   ensures result1 == (len(key) >= 2 && key[0] == 't' && key[len(key)-1] == 's')
 //@   ensures result1 ==> len(result0) == len(key) - 2 && forall(k, 0, len(key)-2, result0[k] == key[1+k])
 
+// ---- Storable laws of the two cached item types (properties C05, C08) ----
+// A posting is stored under its term's key: an empty one is deleted, a non-empty one serialised;
+// it is read back from the same key, an absent key being the empty posting (clean, no error). A
+// document record is stored under its document key (deleted when its length is 0), read back
+// from the same key and decoded, an absent key being "not found". Storage errors propagate.
+//@ func (*setCacheItem).ReadFrom
+//@   property C05 C08
+//@   allocates
+//@   pure
+//@   ensures ncalls(Get) == 1 && callarg(Get, 1, 1) == callres(termKey, 1, 0) && callarg(termKey, 1, 0) == term
+//@   ensures result1 == nil ==> result0 != nil && fresh(result0) && result0.set != nil && !result0.isDirty
+//@   ensures callres(Get, 1, 0) == nil ==> result1 == nil && ncalls(ReadFrom) == 0
+//@ func (*setCacheItem).WriteTo
+//@   property C05 C08
+//@   safety -nil
+//@   pure
+//@   allocates
+//@   ensures callres(IsEmpty, 1, 0) ==> ncalls(Delete) == 1 && ncalls(Put) == 0 && callarg(Delete, 1, 1) == callres(termKey, 1, 0) && callarg(termKey, 1, 0) == term && (result == nil) == (callres(Delete, 1, 0) == nil)
+//@   ensures !callres(IsEmpty, 1, 0) && result == nil ==> ncalls(Put) == 1 && ncalls(Delete) == 0 && callarg(Put, 1, 1) == callres(termKey, 2, 0) && callarg(termKey, 2, 0) == term && callarg(Put, 1, 2) == callres(ToBytes, 1, 0) && callarg(ToBytes, 1, 0) == si.set && callres(Put, 1, 0) == nil
+//@   ensures callarg(IsEmpty, 1, 0) == si.set
+//@ func (*setCacheItem).DeleteFrom
+//@   property C05 C08
+//@   pure
+//@   allocates
+//@   ensures ncalls(Delete) == 1 && callarg(Delete, 1, 1) == callres(termKey, 1, 0) && callarg(termKey, 1, 0) == term && result == callres(Delete, 1, 0)
+//@ func (docCacheItem).ReadFrom
+//@   property C05 C08
+//@   allocates
+//@   ensures ncalls(Get) == 1 && callarg(Get, 1, 1) == callres(documentKey, 1, 0) && callarg(documentKey, 1, 0) == id
+//@   ensures callres(Get, 1, 0) == nil ==> err == cache.ErrNotFound && ncalls(Unmarshal) == 0
+//@   ensures callres(Get, 1, 0) != nil ==> ncalls(Unmarshal) == 1 && callarg(Unmarshal, 1, 0) == callres(Get, 1, 0) && err == callres(Unmarshal, 1, 0)
+//@ func (docCacheItem).WriteTo
+//@   property C05 C08
+//@   pure
+//@   allocates
+//@   ensures dc.Length == 0 ==> ncalls(Delete) == 1 && ncalls(Put) == 0 && callarg(Delete, 1, 1) == callres(documentKey, 1, 0) && callarg(documentKey, 1, 0) == id && (result == nil) == (callres(Delete, 1, 0) == nil)
+//@   ensures dc.Length != 0 && result == nil ==> ncalls(Put) == 1 && ncalls(Delete) == 0 && callarg(Put, 1, 1) == callres(documentKey, 2, 0) && callarg(documentKey, 2, 0) == id && callarg(Put, 1, 2) == callres(Marshal, 1, 0) && callres(Put, 1, 0) == nil
+//@ func (docCacheItem).DeleteFrom
+//@   property C05 C08
+//@   pure
+//@   allocates
+//@   ensures ncalls(Delete) == 1 && callarg(Delete, 1, 1) == callres(documentKey, 1, 0) && callarg(documentKey, 1, 0) == id && result == callres(Delete, 1, 0)
+
 // ---- persisted corpus size (properties C05, C08): flush always writes the current number of
 // documents under the key initSize reads, with the inverse codec; both caches are flushed.
 //@ func (*indexText).flush
